@@ -22,6 +22,7 @@ import WntrModel.Gen.Units
 import WntrModel.Props.C17
 import WntrModel.Props.C13
 import WntrModel.Lemmas.InpFormat
+import WntrModel.Lemmas.InpNorm
 import Mathlib.Data.List.Basic
 import Mathlib.Tactic.Ring
 import Mathlib.Tactic.Linarith
@@ -524,3 +525,51 @@ example : parseRule (printRule (⟨.and (.or (.atom 0) (.atom 1)) (.atom 2), [7,
     some ⟨.and (.or (.atom 0) (.atom 1)) (.atom 2), [7, 8], [9], 5⟩ := by decide
 
 end Wntr.InpText
+
+/-! ## Part C — a second write/read cycle changes nothing further -/
+namespace Wntr.InpNorm
+open Wntr.InpText
+
+/-- **`second_cycle_idempotent`**: the normalisation the oracle applies before comparing (junction without demands = one
+zero demand, dangling pattern names = none, sources without names, head conditions of simple controls in the section's
+datum, pump speed setting 1.0 = unset and none for a closed pump, energy price unset = 0, rule conditions as AND of
+OR-groups) is idempotent: `norm (norm m) = norm m` for every model with any number of elements -/
+theorem second_cycle_idempotent {α : Type} [Inhabited α] (m : Model α) : norm (norm m) = norm m := by
+  simp only [norm, List.map_map]
+  congr 1
+  · apply List.map_congr_left; intro j _; simp [normDemands_idem]
+  · apply List.map_congr_left; intro p _; simp [normPump_idem]
+  · apply List.map_congr_left; intro s _; simp [normSource_idem]
+  · apply List.map_congr_left; intro c _; simp [ctlNorm_idem]
+  · apply List.map_congr_left; intro c _; simp [condNorm_idem]
+  · exact normOpts_idem _ _
+
+/-- the text round trip of a rule lands in the normal form: what `generate_control` builds from the lines of the
+canonical tree is the canonical tree (so a second cycle writes the same lines) -/
+theorem rule_normal_form_roundtrip {α : Type} [Inhabited α] (c : Cond α) :
+    parse (flatten (ofGroups (cnf c)) .if_) = some (ofGroups (cnf c)) := by
+  apply rule_condition_roundtrip
+  -- the canonical tree is a left-nested AND of left-nested ORs
+  have hor : ∀ (rest : List α) (t : Cond α), isDisj t = true → isDisj (rest.foldl (fun t x => Cond.or t (.atom x)) t) = true := by
+    intro rest
+    induction rest with
+    | nil => intro t h; simpa using h
+    | cons x xs ih => intro t h; exact ih _ (by simpa [isDisj] using h)
+  have hgt : ∀ g : List α, isDisj (groupTree g) = true := fun g => hor _ _ rfl
+  have hand : ∀ (gs : List (List α)) (t : Cond α), isShape t = true → isShape ((gs.map groupTree).foldl .and t) = true := by
+    intro gs
+    induction gs with
+    | nil => intro t h; simpa using h
+    | cons g rest ih => intro t h; exact ih _ (by simp [isShape, h, hgt g])
+  have hshape_of_disj : ∀ t : Cond α, isDisj t = true → isShape t = true := by
+    intro t h
+    cases t with
+    | atom _ => rfl
+    | or _ _ => simpa [isShape] using h
+    | and _ _ => simp [isDisj] at h
+  exact hand _ _ (hshape_of_disj _ (hgt _))
+
+/-- non-vacuity: `(a AND b) OR c` is normalised to `(a OR c) AND (b OR c)`, whose lines re-parse to itself -/
+example : ofGroups (cnf (Cond.or (.and (.atom 0) (.atom 1)) (.atom 2))) = Cond.and (.or (.atom 0) (.atom 2)) (.or (.atom 1) (.atom 2)) := by decide
+
+end Wntr.InpNorm
